@@ -118,6 +118,18 @@ def gen_scenario(rng):
         cfg["t1"]["cache"] = {"enabled": True, "ttl_s": rng.choice([0, 0, 300])}
         cfg["t2"]["cache"] = {"enabled": True, "ttl_s": rng.choice([0, 0, 300])}
         cfg["t4"]["cache"] = {"enabled": True, "namespaces": ["t2:semantic"], "ttl_sec": rng.choice([0, 600])}
+    if rng.random() < 0.1:
+        # cache-pressure class: a T1 result cache of 16 entries, eight different questions over two or three graphs (more keys
+        # than entries), each asked twice - which entries survive decides the hit counters of the second round
+        world = gen_world(rng, ngraphs=(2, 3), neps=(0, 6))
+        labs = sorted({n[1] for g in world["graphs"].values() for n in g["nodes"] if n[1]}) or ["hello"]
+        qs = []
+        for j in range(8):
+            qs.append(" ".join(rng.sample(labs, min(len(labs), 1 + j % 3))) + f" q{j}")
+        turns = [{"agent": "A", "text": q, "turn": i + 1, "now_ms": 1_700_000_000_000 + 1000 * i} for i, q in enumerate(qs + qs)]
+        cfg["t1"]["cache"] = {"enabled": True, "max_entries": 16, "ttl_s": 0}
+        cfg["t4"]["enabled"] = False  # the graphs stay as they are: their cache entries stay valid
+        boot = False
     # some scenarios boot from an (empty) snapshot directory: the first turn runs the real boot loader
     sc = {"world": world, "cfg": cfg, "turns": turns, "boot_from_snapshot": boot}
     if len(turns) >= 3 and rng.random() < 0.3:
